@@ -101,6 +101,11 @@ def build(cfg):
         with contextlib.redirect_stdout(io.StringIO()):
             tp = TemperatureParameters(*targs)
         m = PrecipitateModel(phases=names, elements=els, temperatureParameters=tp)
+    elif cfg.get("temp_via") == "after-setup":
+        # the schedule is supplied only AFTER setup(): until then the model holds the constant temperature the schedule starts at
+        m = PrecipitateModel(phases=names, elements=els)
+        m.setTemperature(float(temp[1]) if temp[0] == "const" else float(temp[2][0]))
+        m._verif_late_temp = targs
     else:
         m = PrecipitateModel(phases=names, elements=els)
         import io, contextlib
@@ -203,6 +208,10 @@ def run(cfg):
                 m.setTemperature(cfg["retemp"][ci])
             if first:
                 m.setup()      # idempotent public call; table builds made here belong to row 0, not to the first step
+                if hasattr(m, "_verif_late_temp"):
+                    import io, contextlib
+                    with contextlib.redirect_stdout(io.StringIO()):
+                        m.setTemperature(*m._verif_late_temp)
                 out["lookups0"] = len(getattr(th, "lookupT", []))
                 out["bins0"] = [int(p.bins) for p in m.PBM]
             if first and cfg.get("load"):
